@@ -1,5 +1,6 @@
 import KDVerif.Driver.J
 import KDVerif.Model.CopyProtocol
+import KDVerif.Model.C20Spec
 open Lean KDVerif.J
 
 namespace KDVerif.CopyProtocol.Driver
@@ -93,9 +94,49 @@ def runAttempt (j : Json) : Except String Json := do
   pure (Json.mkObj ([("labels", Json.arr (ls.map labelJson).toArray), ("fs", fsJson src.nFiles c.fs),
     ("fmt", fmtJson (fmtOf src)), ("inv0", Json.bool (invAutoB src fs)), ("inv", Json.bool (invAutoB src c.fs))] ++ pcJson c.pc))
 
+/-! ### op "cp.srctree": the specification-level source layouts of `Model/C20Spec.lean`, evaluated as they are defined
+    (the harness materialises the same layout on disk, runs the real copy functions on it and compares) -/
+
+def strList (v : Json) : Except String (List String) := do
+  let a ← v.getArr?
+  a.toList.mapM (·.getStr?)
+
+def parseSrcTree (j : Json) : Except String SrcTree := do
+  match (← str j "kind") with
+  | "raw" => pure (.raw (← bool j "zipSibling") (← nat j "nItems") (← nat j "nZips") (← strList (← val j "files")))
+  | "zip" => pure (.zip (← strList (← val j "members")))
+  | "zips" => do
+    let a ← arr j "archives"
+    pure (.zips (← bool j "zipSibling") (← a.toList.mapM strList) (← nat j "others"))
+  | k => throw s!"srctree: unknown kind {k}"
+
+/-- `SrcTree.Clear` is decidable: on every constructor it reduces (definitionally) to a decidable arithmetic statement.
+    The driver evaluates `decide t.Clear`, i.e. the model's own definition, not a re-implementation of it. -/
+instance clearDecidable : (t : SrcTree) → Decidable t.Clear
+  | .raw _ nItems nZips _ => inferInstanceAs (Decidable (nZips = 0 ∨ nZips < nItems / 2))
+  | .zip _ => inferInstanceAs (Decidable True)
+  | .zips _ archives others =>
+    inferInstanceAs (Decidable (0 < archives.length ∧ (archives.length + others) / 2 ≤ archives.length))
+
+def srcJson (s : Src) : Json :=
+  Json.mkObj [("isDir", s.isDir), ("zipSibling", s.zipSibling), ("nItems", ofNat s.nItems), ("nZips", ofNat s.nZips),
+    ("nFiles", ofNat s.nFiles)]
+
+/-- op "cp.srctree": `members`, `format`, `toSrc`, `Clear` of a source layout, and `checkSrc` / `fmtOf` of its observation -/
+def runSrcTree (j : Json) : Except String Json := do
+  let t ← parseSrcTree (← val j "tree")
+  pure (Json.mkObj [
+    ("members", Json.arr (t.members.map Json.str).toArray),
+    ("format", fmtJson (some t.format)),
+    ("toSrc", srcJson t.toSrc),
+    ("clear", Json.bool (decide t.Clear)),
+    ("checkSrc", Json.bool (checkSrc t.toSrc)),
+    ("fmtOf", fmtJson (fmtOf t.toSrc))])
+
 def handle (op : String) (j : Json) : Except String Json :=
   match op with
   | "cp.attempt" => runAttempt j
+  | "cp.srctree" => runSrcTree j
   | _ => throw s!"unknown op {op}"
 
 end KDVerif.CopyProtocol.Driver
